@@ -54,6 +54,11 @@ def gen_cases(tier, seed):
                               "seed": rnd.randrange(10**6), "latency": None if kind == "mem" else rnd.choice([None, 0.002])})
                 cases[-1]["expired"] = mode in ("all", "steady") and cases[-1]["seed"] % 3 == 0
                 cases[-1]["past_until"] = mode in ("all", "steady", "reject") and cases[-1]["seed"] % 2 == 1
+    # Redis, wire latency: more steady-state runs (a producer's command landing between two commands of the consumer's scan is
+    # a matter of phase)
+    for rep in range(6 if tier == "quick" else 20):
+        for n, mix in ((12, "own"), (25, "own"), (12, "alt")):
+            cases.append({"kind": "redis", "n": n, "mix": mix, "mode": "steady", "prio": rnd.choice([0, 5, 9]), "mu": None, "seed": rnd.randrange(10**6), "latency": 0.002, "expired": False, "past_until": False})
     return cases
 
 
@@ -158,6 +163,7 @@ async def scenario(loop, case, out, stats, fps, samples):
 
         from repid.data._parameters import DelayProperties, RetriesProperties
 
+        rnd_pu = random.Random(case["seed"] + 77)  # (its own stream: the other choices of a case stay what they were)
         expired = set()
         stale = set()  # deliverable messages that still carry delay bookkeeping (like a retried or rescheduled message)
 
@@ -171,10 +177,10 @@ async def scenario(loop, case, out, stats, fps, samples):
                 # order of everything else is what it would have been without it
                 params = P(timestamp=_dt.now() - _td(hours=1), ttl=_td(seconds=1))
                 expired.add(id_)
-            if case.get("past_until") and id_ not in expired and rnd.random() < 0.3:
+            if case.get("past_until") and id_ not in expired and rnd_pu.random() < 0.3:
                 # a one-off job whose deferred_until is not in the future (any more) when it is enqueued: deliverable at once,
                 # in line like everybody else
-                params = P(delay=DelayProperties(delay_until=_dt.now() - _td(seconds=rnd.choice([0.0, 0.5, 5, 3600]))))
+                params = P(delay=DelayProperties(delay_until=_dt.now() - _td(seconds=rnd_pu.choice([0.0, 0.5, 5, 3600]))))
                 stats["messages_with_a_deferral_already_over"] += 1
             if mode == "reject" and t == "own" and rnd.random() < 0.35:
                 params = P(retries=RetriesProperties(max_amount=3, already_tried=1), delay=DelayProperties(next_execution_time=_dt.now() - _td(seconds=rnd.choice([0.5, 5, 60]))))
